@@ -155,6 +155,18 @@ pub open spec fn registry_frame(old_reg: &TypeRegistry, new_reg: &TypeRegistry, 
     &&& forall|q: ItemPath| #![trigger new_reg.types@.contains_key(q)] #![trigger new_reg.types@[q]] vft_path(p) != Some(q) ==>
             new_reg.types@.contains_key(q) == old_reg.types@.contains_key(q) && (old_reg.types@.contains_key(q) ==> new_reg.types@[q] == old_reg.types@[q])
 }
+/// an attempt changes no entry that was registered before it (the generated vftable item may only replace itself, F10)
+pub open spec fn entries_kept(old_reg: &TypeRegistry, new_reg: &TypeRegistry) -> bool {
+    forall|q: ItemPath| #![trigger new_reg.types@[q]] #![trigger new_reg.types@.contains_key(q)] old_reg.types@.contains_key(q) ==>
+        new_reg.types@.contains_key(q) && new_reg.types@[q] == old_reg.types@[q]
+}
+/// across the whole resolution every registered item keeps its path, visibility and category: only its state changes
+/// (C14 "every declared item .. exactly once", C17 visibility of items)
+pub open spec fn items_kept(old_reg: &TypeRegistry, new_reg: &TypeRegistry) -> bool {
+    forall|q: ItemPath| #![trigger new_reg.types@[q]] #![trigger new_reg.types@.contains_key(q)] old_reg.types@.contains_key(q) ==>
+        new_reg.types@.contains_key(q) && new_reg.types@[q].path == old_reg.types@[q].path
+        && new_reg.types@[q].visibility == old_reg.types@[q].visibility && new_reg.types@[q].category == old_reg.types@[q].category
+}
 pub broadcast axiom fn axiom_vftable_name_not_u8(s: Seq<char>)
     ensures #[trigger] spec_fmt1("{}Vftable"@, s) != "u8"@;
 pub broadcast axiom fn axiom_u8_path()
